@@ -152,6 +152,7 @@ const INCLUDABLE: [&str; 5] = ["inc", "incdef", "base", "base2", "base3"];
 
 /// user filters, one per string-like argument type of value/argtypes.rs
 fn add_arg_filters(e: &mut Environment<'static>) {
+    e.add_function("xf", || Value::UNDEFINED);
     e.add_filter("t_string", |s: String| format!("<{}>", s));
     e.add_filter("t_cow", |s: std::borrow::Cow<'_, str>| format!("<{}>", s));
     e.add_filter("t_input", |s: minijinja::value::StringInput<'_>| format!("<{}>", s.as_str()));
@@ -547,7 +548,7 @@ fn entry_render(entry: &str, mode: UndefinedBehavior, src: &str, ctx: &Value) ->
     });
     match r {
         Ok(Ok(s)) => format!("ok:{}", hex(s.as_bytes())),
-        Ok(Err(e)) => format!("err:{}", error_kind_name(&e)),
+        Ok(Err(e)) => err_text(&e),
         Err(p) => format!("panic:{}", hex(p.as_bytes())),
     }
 }
@@ -1013,6 +1014,309 @@ const SITES: &[(&str, &str, &str)] = &[
     ("model", "[{{ u() }}]", ""),
     ("model", "[{{ l1[u:2] }}]", ""),
 ];
+
+// ------------------------------------------------------------------------------------------
+// the site matrix as a PRODUCT (stream `sx`): every way the language produces a non-silent undefined
+// (PRODUCERS) x every construct that prints / iterates / truth-tests / accesses / asks `defined` /
+// `default` (CONSUMERS).  The class -- and with it the documented row of the matrix -- belongs to the
+// consumer; where the undefined comes from must not matter ("at every site of the language").
+
+/// (statements in front, expression evaluating to a non-silent undefined, statements behind).  The
+/// statements print nothing and run the site exactly once, so the expected output is the consumer's.
+const PRODUCERS: &[(&str, &str, &str)] = &[
+    // context lookups
+    ("", "u", ""),
+    ("", "a.b", ""),
+    ("", "a['b']", ""),
+    ("", "a[s1]", ""),
+    ("", "m1.n.zz", ""),
+    ("", "l1[9]", ""),
+    ("", "l1[-9]", ""),
+    ("", "l1[i2]", ""),
+    ("", "lm[2].k", ""),
+    ("", "n.x", ""),
+    ("", "i1.x", ""),
+    ("", "s1.x", ""),
+    ("", "s1[9]", ""),
+    // lookups whose container and key are literals (compile-time constants)
+    ("", "{'a': 1}['b']", ""),
+    ("", "{'a': 1}.b", ""),
+    ("", "{}.k", ""),
+    ("", "[1, 2][5]", ""),
+    ("", "[1, 2][-5]", ""),
+    ("", "[].x", ""),
+    ("", "'ab'[7]", ""),
+    ("", "'ab'.x", ""),
+    ("", "(1, 2)[5]", ""),
+    ("", "[[1]][0][3]", ""),
+    ("", "{'a': {'c': 1} }.a.b", ""),
+    ("", "1.x", ""),
+    ("", "none.x", ""),
+    ("", "true.x", ""),
+    // a literal container with a run-time key and the reverse
+    ("", "[1, 2][i1]", ""),
+    ("", "{'a': 1}[s1]", ""),
+    ("", "l1[7]", ""),
+    // values stored in literal containers / passed through expressions
+    ("", "[u][0]", ""),
+    ("", "{'k': u}.k", ""),
+    ("", "{'k': u}['k']", ""),
+    ("", "(u if b1 else 1)", ""),
+    ("", "(1 if b0 else a.b)", ""),
+    ("", "(z or u)", ""),
+    ("", "(i1 and a.b)", ""),
+    // results of filters / functions
+    ("", "(l0|first)", ""),
+    ("", "([]|last)", ""),
+    ("", "(m1|attr('zz'))", ""),
+    ("", "([u]|first)", ""),
+    ("", "(u|default(u))", ""),
+    ("", "dict(x=1).k", ""),
+    ("", "(range(0)|first)", ""),
+    // undefined values that come from the embedding application: stored in the context, returned by an object's
+    // get_value, by a function, by a sequence object; found through a filter
+    ("", "xu", ""),
+    ("", "[xu][0]", ""),
+    ("", "xo.un", ""),
+    ("", "xo['un']", ""),
+    ("", "xo.nope", ""),
+    ("", "xs[1]", ""),
+    ("", "xs[5]", ""),
+    ("", "xf()", ""),
+    ("", "(xs|last)", ""),
+    ("", "(lm|map(attribute='zz')|first)", ""),
+    // variables bound by statements
+    ("{% set pv = u %}", "pv", ""),
+    ("{% set pv = {'a': 1}['b'] %}", "pv", ""),
+    ("{% set pv, pw = [u, 1] %}", "pv", ""),
+    ("{% set pm = {'a': 1} %}", "pm['b']", ""),
+    ("{% set pl = [1, 2] %}", "pl[5]", ""),
+    ("{% with pv = a.b %}", "pv", "{% endwith %}"),
+    ("{% for pv in [u] %}", "pv", "{% endfor %}"),
+    ("{% for pv, pw in [[u, 1]] %}", "pv", "{% endfor %}"),
+    ("{% for pq in [1] %}{% set pv = loop.previtem %}", "pv", "{% endfor %}"),
+    ("{% for pq in [1] %}{% set pv = loop.nextitem %}", "pv", "{% endfor %}"),
+    ("{% set pns = namespace() %}", "pns.y", ""),
+    ("{% set pns = namespace(y=u) %}", "pns.y", ""),
+    ("{% macro pmac(pv) %}", "pv", "{% endmacro %}{{ pmac() }}"),
+    ("{% macro pmac(pv) %}", "pv", "{% endmacro %}{{ pmac(u) }}"),
+    ("{% macro pmac(pv=u) %}", "pv", "{% endmacro %}{{ pmac() }}"),
+    ("{% macro pmac() %}{% call(pv) pcal() %}", "pv", "{% endcall %}{% endmacro %}{% macro pcal() %}{{ caller(u) }}{% endmacro %}{{ pmac() }}"),
+];
+
+/// (class, template with `@` for the operand, expected output of the modes that must not fail)
+const CONSUMERS: &[(&str, &str, &str)] = &[
+    // ---- printing
+    ("print", "[{{ @ }}]", "[]"),
+    ("print", "{{ @ }}{{ i1 }}", "3"),
+    ("print", "[{{ @ }}{{ @ }}]", "[]"),
+    ("print", "[{% set cq %}{{ @ }}{% endset %}{{ cq }}]", "[]"),
+    ("print", "{% filter upper %}[{{ @ }}]{% endfilter %}", "[]"),
+    ("print", "[{% for cx in l1 %}{{ @ }}{% endfor %}]", "[]"),
+    ("print", "[{% if b1 %}{{ @ }}{% endif %}]", "[]"),
+    ("print", "[{% autoescape 'html' %}{{ @ }}{% endautoescape %}]", "[]"),
+    ("print", "[{% autoescape 'none' %}{{ @ }}{% endautoescape %}]", "[]"),
+    ("print", "[{% autoescape false %}{{ @ }}{% endautoescape %}{% autoescape true %}{{ @ }}{% endautoescape %}]", "[]"),
+    // ---- iterating
+    ("iterate", "[{% for cx in @ %}x{% endfor %}]", "[]"),
+    ("iterate", "[{% for cx in @ %}x{% else %}e{% endfor %}]", "[e]"),
+    ("iterate", "[{% for cx in @ if cx %}x{% endfor %}]", "[]"),
+    ("iterate", "[{% for cx, cy in @ %}x{% endfor %}]", "[]"),
+    ("iterate", "[{% for cx in @ %}{{ loop.index }}{% endfor %}]", "[]"),
+    ("iterate", "[{% for cx in @ recursive %}{{ loop(cx) }}{% endfor %}]", "[]"),
+    // re-entering a recursive loop: `loop(x)` iterates x (emitted directly / inside an expression /
+    // below the first level / with the loop inside a macro / a set block / an else branch)
+    ("iterate", "[{% for cx in [1] recursive %}{{ cx }}{{ loop(@) }}{% endfor %}]", "[1]"),
+    ("iterate", "[{% for cx in [1] recursive %}{{ cx ~ loop(@) }}{% endfor %}]", "[1]"),
+    ("iterate", "[{% for cx in [1, 2] recursive %}{{ cx }}{% if loop.last %}{{ loop(@) }}{% endif %}{% endfor %}]", "[12]"),
+    ("iterate", "[{% for cx in [[1]] recursive %}{% if cx is sequence %}({{ loop(cx) }}){% else %}{{ cx }}{{ loop(@) }}{% endif %}{% endfor %}]", "[(1)]"),
+    ("iterate", "[{% for cx in [1] recursive %}{% set cr = loop(@) %}{{ cx }}{{ cr }}{% endfor %}]", "[1]"),
+    ("iterate", "[{% for cx in [1] recursive %}{% set cr %}{{ loop(@) }}{% endset %}{{ cx }}{{ cr }}{% endfor %}]", "[1]"),
+    ("iterate", "[{% for cx in [1] recursive %}{{ cx }}{{ loop(@)|upper }}{% endfor %}]", "[1]"),
+    ("iterate", "[{% for cy in [1] %}{% for cx in [1] recursive %}{{ cx }}{{ loop(@) }}{% endfor %}{% endfor %}]", "[1]"),
+    ("iterate", "{% macro crm(cv) %}{% for cx in [1] recursive %}{{ cx }}{{ loop(cv) }}{% endfor %}{% endmacro %}[{{ crm(@) }}]", "[1]"),
+    ("iterate", "{% macro crm(cv) %}{% for cx in cv recursive %}{{ loop(cx) }}{% endfor %}{% endmacro %}[{{ crm(@) }}]", "[]"),
+    // `*args`
+    ("iterate", "[{{ dict(*@) }}]", "[{}]"),
+    ("iterate", "[{{ l1|join(*@) }}]", "[123]"),
+    ("iterate", "[{{ i1 is odd(*@) }}]", "[True]"),
+    ("iterate", "[{{ range(2, *@)|list }}]", "[[0, 1]]"),
+    ("iterate", "[{{ dict(*@, **{}) }}]", "[{}]"),
+    ("iterate", "[{{ range(*[2], *@)|list }}]", "[[0, 1]]"),
+    ("iterate", "[{{ range(*@, *[2])|list }}]", "[[0, 1]]"),
+    ("iterate", "{% macro csp(p=1, q=2) %}{{ p }}{{ q }}{% endmacro %}[{{ csp(*@) }}{{ csp(3, *@) }}{{ csp(*[3], *@, q=4) }}]", "[123234]"),
+    // ---- truth-testing
+    ("truth", "[{% if @ %}1{% endif %}]", "[]"),
+    ("truth", "[{% if @ %}1{% else %}0{% endif %}]", "[0]"),
+    ("truth", "[{% if z %}1{% elif @ %}2{% else %}3{% endif %}]", "[3]"),
+    ("truth", "[{% if not @ %}1{% endif %}]", "[1]"),
+    ("truth", "[{% if @ and i1 %}1{% endif %}]", "[]"),
+    ("truth", "[{% if i1 and @ %}1{% endif %}]", "[]"),
+    ("truth", "[{% if z or @ %}1{% endif %}]", "[]"),
+    ("truth", "[{{ not @ }}]", "[True]"),
+    ("truth", "[{{ not not @ }}]", "[False]"),
+    ("truth", "[{{ @ or 1 }}]", "[1]"),
+    ("truth", "[{{ @ or 'fallback' }}]", "[fallback]"),
+    ("truth", "[{{ z or @ or 2 }}]", "[2]"),
+    ("truth", "[{{ (@ and 1) is undefined }}]", "[True]"),
+    ("truth", "[{{ (@ and 'x') is defined }}]", "[False]"),
+    ("truth", "[{{ 1 if @ else 2 }}]", "[2]"),
+    ("truth", "[{{ 1 if @ }}]", "[]"),
+    ("truth", "[{{ 1 if not @ else 2 }}]", "[1]"),
+    ("truth", "[{{ 2 if b0 else (3 if @ else 4) }}]", "[4]"),
+    ("truth", "[{% for cx in l1 if @ %}x{% endfor %}]", "[]"),
+    ("truth", "[{% for cx in l1 %}{% if @ %}{% break %}{% endif %}{{ cx }}{% endfor %}]", "[123]"),
+    ("truth", "[{% for cx in l1 %}{% if @ %}{% continue %}{% endif %}{{ cx }}{% endfor %}]", "[123]"),
+    ("truth", "[{% set cq = not @ %}{{ cq }}]", "[True]"),
+    // ---- attribute / item access on the undefined
+    ("access", "[{{ @.a }}]", "[]"),
+    ("access", "[{{ @[0] }}]", "[]"),
+    ("access", "[{{ @['a'] }}]", "[]"),
+    ("access", "[{{ @[i1] }}]", "[]"),
+    ("access", "[{{ @.a.b.c }}]", "[]"),
+    ("access", "[{{ @|attr('a') }}]", "[]"),
+    ("access", "[{{ @.a is defined }}]", "[False]"),
+    ("access", "[{{ @.a|default(4) }}]", "[4]"),
+    ("access", "[{% if @.a %}1{% endif %}]", "[]"),
+    ("access", "[{% for cx in @.a %}x{% endfor %}]", "[]"),
+    ("access", "[{% set cq = @.a %}ok]", "[ok]"),
+    ("access", "[{{ not @[0] }}]", "[True]"),
+    // ---- string coercion by `~` (rustdoc: string coercion fails under Strict / SemiStrict)
+    ("coerce", "[{{ @ ~ 1 }}]", "[1]"),
+    ("coerce", "[{{ 'x' ~ @ }}]", "[x]"),
+    ("coerce", "[{{ @ ~ @ }}]", "[]"),
+    ("coerce", "[{{ @|upper }}]", "[]"),
+    // ---- never failing
+    ("never", "[{{ @ is defined }}]", "[False]"),
+    ("never", "[{{ @ is undefined }}]", "[True]"),
+    ("never", "[{{ @ is not defined }}]", "[True]"),
+    ("never", "[{{ @|default(1) }}]", "[1]"),
+    ("never", "[{{ @|d(1) }}]", "[1]"),
+    ("never", "[{{ @|default }}]", "[]"),
+    ("never", "[{{ @|default('x', true) }}]", "[x]"),
+    ("never", "[{% if @ is defined %}1{% else %}0{% endif %}]", "[0]"),
+    ("never", "[{{ 1 if @ is undefined else 2 }}]", "[1]"),
+    ("never", "[{% set cq = @ %}{{ cq is defined }}]", "[False]"),
+    ("never", "[{{ (@ is undefined) and 1 }}]", "[1]"),
+    ("never", "[{% for cx in @|default([]) %}x{% endfor %}]", "[]"),
+    // ---- not rows of the documented matrix (`in`, slices, comparisons, arithmetic, iterating / coercing builtins):
+    // monotonicity, and the Lean model where it reaches
+    ("model", "[{{ 1 in @ }}]", ""),
+    ("model", "[{{ 1 not in @ }}]", ""),
+    ("model", "[{{ @ in l1 }}]", ""),
+    ("model", "[{{ @[1:2] }}]", ""),
+    ("model", "[{{ l1[@:2] }}]", ""),
+    ("model", "[{{ @ == 1 }}]", ""),
+    ("model", "[{{ 1 != @ }}]", ""),
+    ("model", "[{{ @ < 1 }}]", ""),
+    ("model", "[{{ 0 < i1 < @ }}]", ""),
+    ("model", "[{{ @ + 1 }}]", ""),
+    ("model", "[{{ -@ }}]", ""),
+    ("model", "[{{ @|list }}]", ""),
+    ("model", "[{{ @|length }}]", ""),
+    ("model", "[{{ @|first }}]", ""),
+    ("model", "[{{ @|join(',') }}]", ""),
+    ("model", "[{{ l1|join(@) }}]", ""),
+    ("model", "[{{ @|sum }}]", ""),
+    ("model", "[{{ @|map('upper')|list }}]", ""),
+    ("model", "[{{ @|select|list }}]", ""),
+    ("model", "[{{ @|reject('odd')|list }}]", ""),
+    ("model", "[{{ @|batch(2)|list }}]", ""),
+    ("model", "[{{ @|sort }}]", ""),
+    ("model", "[{{ @|int }}]", ""),
+    ("model", "[{{ @|bool }}]", ""),
+    ("model", "[{{ @|string }}]", ""),
+    ("model", "[{{ i1|default(5, @) }}]", ""),
+    ("model", "[{{ @() }}]", ""),
+    ("model", "[{{ @.f() }}]", ""),
+    ("model", "[{% include @ ignore missing %}]", ""),
+    ("model", "[{{ dict(**@) }}]", ""),
+    ("model", "[{% set cx, cy = @ %}]", ""),
+    ("model", "[{{ [@] }}|{{ {'k': @} }}]", ""),
+];
+
+/// the product; `quick` thins it deterministically (every producer and every consumer stay, each
+/// producer meets a third of the consumers, rotated by VERIF_SEED)
+fn sx_cases(tier: &str) -> Vec<(&'static str, String, &'static str)> {
+    let seed = seed_from_env() as usize;
+    let mut v = vec![];
+    for (pi, (pre, expr, post)) in PRODUCERS.iter().enumerate() {
+        for (ci, (class, tmpl, expect)) in CONSUMERS.iter().enumerate() {
+            // the plain variable and the literal lookups meet every consumer in every tier
+            let always = pi == 0 || (expr.starts_with(['{', '[', '\'', '(']) && pre.is_empty());
+            if tier != "thorough" && !always && (pi + ci + seed) % 3 != 0 {
+                continue;
+            }
+            v.push((*class, format!("{}{}{}", pre, tmpl.replace('@', expr), post), *expect));
+        }
+    }
+    v
+}
+
+/// one consumer each with a rotating producer: the product's diagonal, for the entry-point / output-context streams
+fn sx_diagonal() -> Vec<(&'static str, String, &'static str)> {
+    let seed = seed_from_env() as usize;
+    CONSUMERS.iter().enumerate().map(|(ci, (class, tmpl, expect))| {
+        // (the output-context / entry streams render over the shared context: no application-supplied values)
+        let mut pi = (ci * 7 + seed) % PRODUCERS.len();
+        while sx_needs_app_values(PRODUCERS[pi].1) {
+            pi = (pi + 1) % PRODUCERS.len();
+        }
+        let (pre, expr, post) = PRODUCERS[pi];
+        (*class, format!("{}{}{}", pre, tmpl.replace('@', expr), post), *expect)
+    }).collect()
+}
+
+/// the context of the `sx` streams: the modelled one plus undefined values supplied by the application
+fn ctx_sx() -> Value {
+    context! { xu => Value::UNDEFINED, xo => Value::from_object(MapObj), xs => Value::from_object(SeqObj), ..ctx_small() }
+}
+
+fn sx_needs_app_values(src: &str) -> bool {
+    ["xu", "xo.", "xo[", "xs[", "xs|", "xf("].iter().any(|n| src.contains(n))
+}
+
+/// a line of the `sx` stream: errors as `err:<kind>/<innermost kind>` (a failing `loop(x)` wraps the UndefinedError)
+fn emit_sx(w: &mut impl std::io::Write, envs: &Envs, stream: &str, id: usize, label: &str, src: &str, ctx: &Value) {
+    debug_assert!(!src.contains('\t') && !src.contains('\n'));
+    // `sxa` / `sxj`: the template name switches HTML / JSON auto-escaping on
+    let name = match stream { "sxa" => "p.html", "sxj" => "p.json", _ => "<string>" };
+    let k = if stream == "sxv" { 2 } else { 0 };
+    let es = if k == 0 { &envs.envs } else { &envs.fmt_envs[k - 1] };
+    let rs: Vec<String> = es.iter().map(|e| match guarded(|| e.render_named_str(name, src, ctx.clone())) {
+        Ok(Ok(s)) => format!("ok:{}", hex(s.as_bytes())),
+        Ok(Err(e)) => err_text(&e),
+        Err(p) => format!("panic:{}", hex(p.as_bytes())),
+    }).collect();
+    // the Lean model runs the cases over the shared context only
+    let prog = if stream == "sx" && !sx_needs_app_values(src) { enc_prog_named(envs, name, src, &ctx_small(), k) } else { "-".into() };
+    writeln!(w, "{}\t{}\t{}\t{}\t{}\t{}", stream, id, label, src, rs.join("\t"), prog).unwrap();
+}
+
+/// the `sx` streams of a tier (also the subcommand `sx <tier>`)
+fn gen_sx(w: &mut impl std::io::Write, envs: &Envs, tier: &str, id: &mut usize) {
+    // the site matrix as a product: every producer of an undefined x every consuming construct; plain, in a
+    // `.html` template, through the visible formatter and in a `.json` template (there only the error pattern is judged)
+    let sx = sx_cases(tier);
+    let sxc = ctx_sx();
+    for (class, src, expect) in &sx {
+        emit_sx(w, envs, "sx", *id, &format!("{}:{}", class, hx(expect)), src, &sxc);
+        *id += 1;
+    }
+    for (i, (class, src, expect)) in sx.iter().enumerate() {
+        if tier != "thorough" && i % 4 != seed_from_env() as usize % 4 {
+            continue;
+        }
+        let e = if expect.chars().any(|c| "<>&\"'/".contains(c)) { "*".to_string() } else { hx(expect) };
+        emit_sx(w, envs, "sxa", *id, &format!("{}:{}", class, e), src, &sxc);
+        *id += 1;
+        emit_sx(w, envs, "sxv", *id, &format!("{}:*", class), src, &sxc);
+        *id += 1;
+        // JSON auto-escaping prints other text (an undefined is `null`): the error pattern is judged
+        emit_sx(w, envs, "sxj", *id, &format!("{}:*", class), src, &sxc);
+        *id += 1;
+    }
+}
 
 // ------------------------------------------------------------------------------------------
 // builtins: name, kind, "good" positional args (arg 0 = the receiver for filters/tests), kwargs
@@ -1899,12 +2203,21 @@ fn main() {
                 }
                 return;
             }
+            if matches!(stream, "sx" | "sxa" | "sxv" | "sxj") {
+                emit_sx(&mut w, &envs, stream, 0, "replay:*", &src, &ctx_sx());
+                return;
+            }
             if stream.ends_with('x') || stream.ends_with('h') {
                 let c = if stream.ends_with('x') { context! { RAND_SEED => 42, ..ctx_big() } } else { ctx_safe() };
                 emit_sig(&mut w, &envs, stream, 0, "replay", &src, &c, "-");
                 return;
             }
             emit(&mut w, &envs, stream, 0, "replay", &src, &ctx, small);
+        }
+        "sx" => {
+            let tier = args.get(2).map(|s| s.as_str()).unwrap_or("quick").to_string();
+            let mut id = 0usize;
+            gen_sx(&mut w, &envs, &tier, &mut id);
         }
         "gen" => {
             let tier = args.get(2).map(|s| s.as_str()).unwrap_or("quick").to_string();
@@ -1934,9 +2247,11 @@ fn main() {
                     id += 1;
                 }
             }
-            // the site matrix in every output context / entry form / formatter
+            gen_sx(&mut w, &envs, &tier, &mut id);
+            // the site matrix in every output context / entry form / formatter (the product's diagonal included)
+            let diag = sx_diagonal();
             for (cx, entry, k) in cx_combos(&tier) {
-                for (class, src, expect) in SITES {
+                for (class, src, expect) in SITES.iter().map(|(c, s, e)| (*c, *s, *e)).chain(diag.iter().map(|(c, s, e)| (*c, s.as_str(), *e))) {
                     if let Some(l) = cx_line(&envs, cx, entry, k, id, class, src, expect, &small) {
                         writeln!(w, "{}", l).unwrap();
                         id += 1;
@@ -2015,7 +2330,7 @@ fn main() {
             }
             // other entry points and environment configurations for the site templates
             for (ei, e) in ENTRIES.iter().enumerate() {
-                for (class, src, _) in SITES {
+                for (class, src) in SITES.iter().map(|(c, s, _)| (*c, *s)).chain(diag.iter().map(|(c, s, _)| (*c, s.as_str()))) {
                     let rs: Vec<String> = MODES.iter().map(|m| entry_render(e, *m, src, &small)).collect();
                     writeln!(w, "entry\t{}\t{}:{}\t{}\t{}\t-", id, e, class, src, rs.join("\t")).unwrap();
                     id += 1;
